@@ -431,6 +431,90 @@ theorem c17_client_mode_and_file_last_wins (o : Oracles) (gs : List CGroup) (c :
   simp only [List.foldl_append, List.foldl_cons, List.foldl_nil] at hp
   refine ⟨_, hp, ?_, ?_, ?_⟩ <;> intro x hx <;> subst hx <;> rfl
 
+/-! ### client: last occurrence wins, hence order independence -/
+
+/-- the last client group that sets the setting selected by `sel` -/
+def lastValC {α : Type} (sel : CGroup → Option α) : List CGroup → Option α
+  | [] => none
+  | g :: gs => match lastValC sel gs with
+    | some v => some v
+    | none => sel g
+
+theorem foldl_fieldC {α : Type} (sel : CGroup → Option α) (f : CCfg → α)
+    (hstep : ∀ g c, f (g.apply c) = (sel g).getD (f c)) (gs : List CGroup) (c : CCfg) :
+    f (gs.foldl (fun c g => g.apply c) c) = (lastValC sel gs).getD (f c) := by
+  induction gs generalizing c with
+  | nil => simp [lastValC]
+  | cons g gs ih =>
+    simp only [List.foldl_cons, lastValC]
+    rw [ih, hstep]
+    cases lastValC sel gs <;> simp
+
+def cselIp : CGroup → Option (Option Bytes) | .ip _ v => some (some v) | _ => none
+def cselPort : CGroup → Option Nat | .port _ v => parseUnsigned 65536 v | _ => none
+def cselBlk : CGroup → Option Nat | .blk _ v => parseUnsigned Gen.usizeBound v | _ => none
+def cselWin : CGroup → Option Nat | .win _ v => parseUnsigned 65536 v | _ => none
+def cselTmo : CGroup → Option Nat | .tmo _ v => parseUnsigned Gen.usizeBound v | _ => none
+def cselRd : CGroup → Option Bytes | .rd _ v => some v | _ => none
+def cselMode : CGroup → Option Bool | .up _ => some true | .down _ => some false | _ => none
+def cselKeep : CGroup → Option Bool | .keep => some false | _ => none
+def cselFile : CGroup → Option Bytes | .file a => some (convertFilePath a) | _ => none
+
+/-- **client: the last occurrence of each flag determines the configuration** — every setting of the
+result is the value of the last group that names it (`-u` and `-d` name the same setting, every positional
+argument names the file), or the starting value when no group does -/
+theorem c17_client_last_wins (gs : List CGroup) (c : CCfg) :
+    let r := gs.foldl (fun c g => g.apply c) c
+    r.ip = (lastValC cselIp gs).getD c.ip ∧ r.port = (lastValC cselPort gs).getD c.port ∧
+    r.blocksize = (lastValC cselBlk gs).getD c.blocksize ∧ r.windowsize = (lastValC cselWin gs).getD c.windowsize ∧
+    r.timeoutS = (lastValC cselTmo gs).getD c.timeoutS ∧ r.recvDir = (lastValC cselRd gs).getD c.recvDir ∧
+    r.upload = (lastValC cselMode gs).getD c.upload ∧ r.cleanOnError = (lastValC cselKeep gs).getD c.cleanOnError ∧
+    r.filePath = (lastValC cselFile gs).getD c.filePath := by
+  refine ⟨foldl_fieldC cselIp (·.ip) ?_ gs c, foldl_fieldC cselPort (·.port) ?_ gs c,
+    foldl_fieldC cselBlk (·.blocksize) ?_ gs c, foldl_fieldC cselWin (·.windowsize) ?_ gs c,
+    foldl_fieldC cselTmo (·.timeoutS) ?_ gs c, foldl_fieldC cselRd (·.recvDir) ?_ gs c,
+    foldl_fieldC cselMode (·.upload) ?_ gs c, foldl_fieldC cselKeep (·.cleanOnError) ?_ gs c,
+    foldl_fieldC cselFile (·.filePath) ?_ gs c⟩ <;>
+  · intro g c
+    cases g <;> simp [CGroup.apply, cselIp, cselPort, cselBlk, cselWin, cselTmo, cselRd, cselMode, cselKeep, cselFile] <;>
+      (first | rfl | (rename_i v; cases parseUnsigned 65536 v <;> rfl) |
+        (rename_i v; cases parseUnsigned Gen.usizeBound v <;> rfl))
+
+/-- **client: order independence** — two vectors of valid groups in which every setting has the same last
+occurrence give the same client configuration (any reordering that keeps, for each setting, its last
+occurrence; in particular any permutation of a vector that names each setting at most once) -/
+theorem c17_client_order_independent (o : Oracles) (gs1 gs2 : List CGroup)
+    (h1 : ∀ g ∈ gs1, g.valid o = true) (h2 : ∀ g ∈ gs2, g.valid o = true)
+    (hip : lastValC cselIp gs1 = lastValC cselIp gs2) (hport : lastValC cselPort gs1 = lastValC cselPort gs2)
+    (hblk : lastValC cselBlk gs1 = lastValC cselBlk gs2) (hwin : lastValC cselWin gs1 = lastValC cselWin gs2)
+    (htmo : lastValC cselTmo gs1 = lastValC cselTmo gs2) (hrd : lastValC cselRd gs1 = lastValC cselRd gs2)
+    (hmode : lastValC cselMode gs1 = lastValC cselMode gs2) (hk : lastValC cselKeep gs1 = lastValC cselKeep gs2)
+    (hfile : lastValC cselFile gs1 = lastValC cselFile gs2) :
+    clientConfig o (gs1.flatMap CGroup.tokens) = clientConfig o (gs2.flatMap CGroup.tokens) := by
+  unfold clientConfig
+  rw [c17_client_groups_parse o gs1 _ h1, c17_client_groups_parse o gs2 _ h2]
+  have e1 := c17_client_last_wins gs1 CCfg.default
+  have e2 := c17_client_last_wins gs2 CCfg.default
+  simp only at e1 e2
+  have : gs1.foldl (fun c g => g.apply c) CCfg.default = gs2.foldl (fun c g => g.apply c) CCfg.default := by
+    generalize gs1.foldl (fun c g => g.apply c) CCfg.default = a at e1
+    generalize gs2.foldl (fun c g => g.apply c) CCfg.default = b at e2
+    obtain ⟨a1, a2, a3, a4, a5, a6, a7, a8, a9⟩ := e1
+    obtain ⟨b1, b2, b3, b4, b5, b6, b7, b8, b9⟩ := e2
+    cases a; cases b
+    simp only at a1 a2 a3 a4 a5 a6 a7 a8 a9 b1 b2 b3 b4 b5 b6 b7 b8 b9
+    simp only [CCfg.mk.injEq]
+    rw [a1, a2, a3, a4, a5, a6, a7, a8, a9, b1, b2, b3, b4, b5, b6, b7, b8, b9,
+      hip, hport, hblk, hwin, htmo, hrd, hmode, hk, hfile]
+    simp
+  rw [this]
+
+/-! non-vacuity: `-u -b 57 file -d` against `file -d -b 57` (mode: the last of the two mode flags; same file; same blksize) -/
+example : clientConfig { ipOk := fun _ => true, pathExists := fun _ => true }
+    ((CGroup.up false).tokens ++ (CGroup.blk false [53, 55]).tokens ++ (CGroup.file [120]).tokens ++ (CGroup.down false).tokens) =
+  clientConfig { ipOk := fun _ => true, pathExists := fun _ => true }
+    ((CGroup.file [120]).tokens ++ (CGroup.down true).tokens ++ (CGroup.blk true [53, 55]).tokens) := by decide
+
 /-- client defaults: 127.0.0.1 (`ip = none`), port 69, blksize 512, windowsize 1, timeout 5 s, download,
 clean-on-error -/
 theorem c17_client_defaults (o : Oracles) :
